@@ -147,3 +147,153 @@ func runC20StalledPeer(run *Run, iter int) (out []*c01Result) {
 	}
 	return
 }
+
+// runC20LastStanding: every other member has left gracefully (their records are still in the table,
+// not yet reaped). Leave and UpdateNode of the last node have nobody to wait for: they must return
+// without error well before their timeout.
+func runC20LastStanding(run *Run, seed int64, peers int, call string) (out []*c01Result) {
+	fail := func(key, f string, a ...any) {
+		out = append(out, &c01Result{"C20/" + key, fmt.Sprintf(f, a...)})
+	}
+	rig, err := NewRig(RigOpts{Seed: seed, Spec: NodeSpec{Name: "V", IP: "10.9.9.9", Mutate: func(cf *memberlist.Config) {
+		cf.ProbeInterval = noProbe
+		cf.PushPullInterval = 0
+		cf.GossipInterval = 200 * time.Millisecond
+		cf.GossipToTheDeadTime = 30 * time.Second
+	}}})
+	if err != nil {
+		fail("harness/create", "%v", err)
+		return
+	}
+	defer rig.Close()
+	V := rig.V
+	var ps []*FakePeer
+	for i := 0; i < peers; i++ {
+		p := rig.AddPeer(fmt.Sprintf("p%d", i), fmt.Sprintf("10.9.1.%d", i+1), 7946)
+		rig.Introduce(p, 1)
+		ps = append(ps, p)
+	}
+	Settle(time.Second)
+	for _, p := range ps {
+		p.Send(Enc(TDead, &WDead{Incarnation: 1, Node: p.Name, From: p.Name}))
+	}
+	Settle(2 * time.Second)
+	if n := V.ML().NumMembers(); n != 1 {
+		fail("harness/setup", "expected the node to be alone, it lists %d members", n)
+		return
+	}
+	const timeout = 5 * time.Second
+	t0 := time.Now()
+	done := make(chan error, 1)
+	go func() {
+		if call == "Leave" {
+			done <- V.ML().Leave(timeout)
+		} else {
+			V.Del.SetMeta([]byte("new-meta"))
+			done <- V.ML().UpdateNode(timeout)
+		}
+	}()
+	var cerr error
+	returned := false
+	for i := 0; i < 80 && !returned; i++ {
+		Settle(100 * time.Millisecond)
+		select {
+		case cerr = <-done:
+			returned = true
+		default:
+		}
+	}
+	took := time.Since(t0)
+	run.Cell("last-standing", call, fmt.Sprintf("peers=%d", peers))
+	switch {
+	case !returned:
+		fail("blocked/"+call+"@last-standing", "%s(%v) had not returned after %v although every other member has left", call, timeout, took)
+		Settle(timeout)
+	case cerr != nil:
+		fail("spurious-error/"+call+"@last-standing", "%s(%v) returned %q after %v although there was nobody left to wait for", call, timeout, cerr, took)
+	case took > time.Second:
+		fail("slow/"+call+"@last-standing", "%s(%v) took %v although there was nobody left to wait for", call, timeout, took)
+	}
+	return
+}
+
+type gateDelegate struct {
+	gate    chan struct{}
+	entered chan struct{}
+	once    bool
+}
+
+func (d *gateDelegate) NodeMeta(int) []byte { return nil }
+func (d *gateDelegate) NotifyMsg([]byte) {
+	if !d.once {
+		d.once = true
+		close(d.entered)
+		<-d.gate
+	}
+}
+func (d *gateDelegate) GetBroadcasts(int, int) [][]byte   { return nil }
+func (d *gateDelegate) LocalState(join bool) []byte       { return nil }
+func (d *gateDelegate) MergeRemoteState(b []byte, j bool) {}
+
+// runC20StalledDelegate (real sockets, real time): the application's NotifyMsg is stuck, further user
+// datagrams keep arriving, then Shutdown is called. It must return (limit 8 s; nothing in the
+// configuration waits that long) although the packet handler cannot make progress.
+func runC20StalledDelegate(run *Run, iter int) (out []*c01Result) {
+	fail := func(key, f string, a ...any) {
+		out = append(out, &c01Result{"C20/real/" + key, fmt.Sprintf(f, a...)})
+	}
+	d := &gateDelegate{gate: make(chan struct{}), entered: make(chan struct{})}
+	cf := memberlist.DefaultLocalConfig()
+	cf.Name = fmt.Sprintf("stalldel-%d", iter)
+	cf.BindAddr = "127.0.0.1"
+	cf.BindPort = 0
+	cf.AdvertisePort = 0
+	cf.PushPullInterval = 0
+	cf.Logger = log.New(io.Discard, "", 0)
+	cf.Delegate = d
+	m, err := memberlist.Create(cf)
+	if err != nil {
+		fail("harness/create", "%v", err)
+		return
+	}
+	released := false
+	defer func() {
+		if !released {
+			close(d.gate)
+		}
+		_ = m.Shutdown()
+	}()
+	conn, err := net.Dial("udp", m.LocalNode().Address())
+	if err != nil {
+		run.Count("real_iterations_skipped_dial", 1)
+		return
+	}
+	defer conn.Close()
+	send := func(i int) { _, _ = conn.Write(append([]byte{TUser}, []byte(fmt.Sprintf("msg-%d", i))...)) }
+	send(0)
+	select {
+	case <-d.entered:
+	case <-time.After(3 * time.Second):
+		run.Count("real_iterations_skipped_udp_lost", 1)
+		return
+	}
+	for i := 1; i <= 12; i++ {
+		send(i)
+		time.Sleep(5 * time.Millisecond)
+	}
+	time.Sleep(100 * time.Millisecond)
+	done := make(chan struct{})
+	t0 := time.Now()
+	go func() { _ = m.Shutdown(); close(done) }()
+	select {
+	case <-done:
+		run.Max("shutdown_with_stalled_delegate_seconds", time.Since(t0).Seconds())
+		run.Cell("real-stalled-delegate", "Shutdown")
+	case <-time.After(8 * time.Second):
+		fail("shutdown-blocked-by-stalled-delegate", "Shutdown had not returned 8s after being called while the application's NotifyMsg was stuck and 12 more user datagrams had arrived")
+		close(d.gate)
+		released = true
+		<-done
+	}
+	return
+}
